@@ -108,7 +108,7 @@ int main(int argc, char** argv) {
       if (thorough) nv = -1; /* all 65536, handled below */
       else {
         for (uint64_t v = 0; v < 65536; v += 251) vals[nv++] = v;
-        uint64_t b[] = {1, 23, 24, 255, 256, 257, 32767, 32768, 65534, 65535};
+        uint64_t b[] = {1, 23, 24, 255, 256, 257, 32767, 32768, 65534, 65535, 55798, 55799, 55800, 0xd9f6, 0xf7d9};
         for (size_t i = 0; i < sizeof b / sizeof *b; i++) vals[nv++] = b[i];
       }
     } else {
